@@ -18,6 +18,13 @@ args, kwargs, name, key ...); values include the ones the host language takes fo
 lambda - and results that hold lazy sequences, produced twice.  Results are compared with their types at every depth
 (`typed`): Python's `==` is never used on results.  An evaluation that RAISES (any exception class: TypeError,
 AttributeError, KeyError ...) where the references return a value is an oracle failure like any other difference.
+Collections `.name` is applied to hold elements of MIXED kinds (records next to nested collections of records, literals /
+document fields / host variables / lazy sequences); 30% of the programs run on a context chain the HOST prepared - variables in
+the context handed to `yaql.create_context(context=..)` (below the library layers), in contexts stacked on the library context,
+the same name at several depths - with the document entering through `evaluate(data=..)` on the top context / a child,
+`yaql.create_context(data=..)` + `evaluate(context=..)` without data, or bound by the host itself at any depth; a fifth of the
+calls of builtin methods pass their trailing arguments - lambdas included - BY KEYWORD (`toDict(keySelector => .., valueSelector
+=> ..)`), some under names that are no parameter.
 Oracle (failing input): real differs from ref and the model does not side with real.
 Mismatch (tie broken): the model differs from real although ref agrees with real (a slip in the
 model), or ref is the odd one out (a slip in the transcription)."""
@@ -34,13 +41,22 @@ import evalgen
 import evalref
 
 ID = 'C04'
-LEAN_MODULES = ['Yaql.Props.C04']
+LEAN_MODULES = ['Yaql.Props.C04', 'Yaql.Props.C04Gen']
 REQUIRED_THEOREMS = ['Yaql.Props.C04.' + n for n in (
     'frame frame_root sibling_independence shadowing shadowing_let unknown_null dollar_alias lambda_binds_innermost '
     'lambda_dollar get_argFrame with_numbering closure_lexical closure_lexical_args ucall_eq no_leak_arg no_leak_lambda '
     'no_leak_callee member_maps fuel_mono empty_frame_invisible let_names_verbatim let_other_name kwarg_names_verbatim '
     'def_names_verbatim normName_inj_plain def_call_pure def_call_own_args def_calls_independent def_then_call '
-    'def_identity_faithful def_identity_injective').split()]
+    'def_identity_faithful def_identity_injective select_member_elem member_elementwise memberV_nested host_var_visible '
+    'host_var_topmost doc_position_irrelevant dollar_from_any_depth runHost_nil toDict_by_keyword lambda_by_keyword '
+    'select_by_keyword noOverload_raises positional_id').split()] + [
+        'Yaql.Props.C04Gen.kwParams_live', 'Yaql.Props.C04Gen.kwParams_total', 'Yaql.Props.C04Gen.kwParams_camel']
+
+
+def generate():
+    import pyfacts
+    return pyfacts.run(['KwParams'])['KwParams']
+
 TRUSTED = ['harness/evalref.py (plain-Python transcription of the language reference, second opinion for every case)',
            'harness/evalgen.py: the renderer AST -> yaql text (every generated text is parsed back by the engine under '
            'test and compared with the AST that goes to the model)']
@@ -50,11 +66,17 @@ ASSUMPTIONS = ['documents are JSON-like: null / bool / int / float / str, lists,
                'functions of the fragment: let with def unpack list dict select where selectMany orderBy orderByDescending '
                'takeWhile skipWhile indexWhere toDict aggregate sum first toList take skip get len any all; operators '
                '+ - * = != < <= > >= and or not unary-; anything else is outside the model',
+               'keyword arguments of the 16 builtin methods with parameters are evaluated as the positional call that says the same '
+               '(Expr.positional; the keyword names are proved equal to the live registry\'s by C04Gen.kwParams_live); repeated '
+               'keywords, a parameter left out in between, eager keyword arguments written in another order than the parameters '
+               'and keyword arguments of the function form / of get / len are out of domain',
+               'host context chains: variables hold converted (frozen) data; the library layers between the host\'s contexts bind no '
+               'variable (empty_frame_invisible)',
                'function names are identified up to trailing underscores (documented: "all trailing underscores are stripped '
                'from the names"); every other name is data',
                'out of domain (skipped, counted): a variable holding a one-shot iterator read back, lazy sequences that '
-               'raise / orderings / context objects stored inside data, operators applied to lazy sequences, keyword '
-               'arguments of builtins, recursion deeper than the fuel']
+               'raise / orderings / context objects stored inside data (also: the projection of a NESTED collection that would '
+               'raise), operators applied to lazy sequences, recursion deeper than the fuel']
 
 OPTIONS = {'yaql.convertSetsToLists': True, 'yaql.limitIterators': 10000, 'yaql.memoryQuota': 10000000}
 FUEL = 400
@@ -183,7 +205,51 @@ def reuse_mode(text):
     return REUSE_MODES[zlib.crc32(text.encode('utf8')) % len(REUSE_MODES)]
 
 
-def run_real_once(text, doc, timeout):
+def host_eval(st, host, env, root):
+    """the evaluation the result of which is compared: `st` on the host document `host`, entered the way `env` says
+    (harness/evalgen.py: gen_host_env).  env None: `evaluate(data=doc, context=<child of the library context>)`.
+    Otherwise the host has a context chain of its own - layer 0 is handed to `yaql.create_context(context=..)` (its
+    variables live BELOW the layers of the standard library), the other layers are stacked on the context that returns -
+    and binds the document
+      create_context[-child]  with `yaql.create_context(data=doc, context=layer0)`, evaluating without data on the top
+                              context [a child of it];
+      host-binds-$            itself: `layer[at - 1]['$'] = convert_input_data(doc)`, evaluating without data on a child;
+      evaluate-top / -child   with `evaluate(data=doc, context=top [a child of top])`.
+    Only public API; every context of the chain is made for this one evaluation."""
+    if env is None:
+        return st.evaluate(data=host, context=root.create_child_context())
+    import yaql
+    from yaql.language import contexts, conventions, utils
+    layers, entry, at = env['layers'], env['entry'], env['at']
+    bind_root = entry.startswith('create_context')
+    if layers[0] or bind_root:
+        h0 = contexts.Context(convention=conventions.CamelCaseConvention())
+        for n, v in layers[0]:
+            h0[n] = utils.convert_input_data(evalgen.to_host(v))
+        top = yaql.create_context(data=host, context=h0) if bind_root else yaql.create_context(context=h0)
+    else:
+        top = root.create_child_context()
+    if entry == 'host-binds-$' and at == 1:
+        if layers[0]:
+            h0['$'] = utils.convert_input_data(host)
+        else:
+            top['$'] = utils.convert_input_data(host)
+    for i, layer in enumerate(layers[1:], 1):
+        top = top.create_child_context()
+        for n, v in layer:
+            top[n] = utils.convert_input_data(evalgen.to_host(v))
+        if entry == 'host-binds-$' and at == i + 1:
+            top['$'] = utils.convert_input_data(host)
+    if entry == 'evaluate-top':
+        return st.evaluate(data=host, context=top)
+    if entry == 'evaluate-child':
+        return st.evaluate(data=host, context=top.create_child_context())
+    if entry == 'create_context':
+        return st.evaluate(context=top)
+    return st.evaluate(context=top.create_child_context())
+
+
+def run_real_once(text, doc, timeout, env=None):
     """the result of the LAST evaluation of a short history on one engine; what it has to be is the meaning of `text` on
     the contents the document has at that time (= `doc`)"""
     import random
@@ -225,7 +291,7 @@ def run_real_once(text, doc, timeout):
                     st = eng(text)
             else:
                 host = evalgen.to_host(doc)
-            return plain_result(st.evaluate(data=host, context=root.create_child_context()))
+            return plain_result(host_eval(st, host, env, root))
         finally:
             signal.setitimer(signal.ITIMER_REAL, 0)
     except Timeout:
@@ -240,10 +306,10 @@ def run_real_once(text, doc, timeout):
         return ('err', type(e).__name__)
 
 
-def run_real(text, doc, timeout=5):
-    r = run_real_once(text, doc, timeout)
+def run_real(text, doc, timeout=5, env=None):
+    r = run_real_once(text, doc, timeout, env)
     if r == ('err', 'Timeout'):
-        r = run_real_once(text, doc, 8 * timeout)
+        r = run_real_once(text, doc, 8 * timeout, env)
     return r
 
 
@@ -255,8 +321,24 @@ def to_ref(v):
     return v
 
 
-def run_ref(doc, ast):
-    return evalref.run(to_ref(doc), ast)
+def ref_env(env):
+    if env is None:
+        return None
+    return dict(env, layers=[[(n, to_ref(v)) for n, v in layer] for layer in env['layers']])
+
+
+def run_ref(doc, ast, env=None):
+    return evalref.run(to_ref(doc), ast, env=ref_env(env))
+
+
+def enc_env(env):
+    return {'layers': [[[n, enc_doc(v)] for n, v in layer] for layer in env['layers']], 'entry': env['entry'], 'at': env['at']}
+
+
+def dec_env(j):
+    if j is None:
+        return None
+    return {'layers': [[[n, dec_doc(v)] for n, v in layer] for layer in j['layers']], 'entry': j['entry'], 'at': j['at']}
 
 
 def wire(ast):
@@ -283,14 +365,20 @@ def dec_doc(j):
     return values.dec(j)
 
 
+def model_case(ast, doc, env=None):
+    c = {'doc': enc_doc(doc), 'e': wire(ast)}
+    if env is not None:
+        c['host'] = enc_env(env)
+    return c
+
+
 def ask_model(drv, cases):
-    """cases: [(ast, doc)] -> replies decoded to ('ok', v) | ('ctx',) | ('err', cls) | ('ood',) | None"""
+    """cases: [(ast, doc) | (ast, doc, env)] -> replies decoded to ('ok', v) | ('ctx',) | ('err', cls) | ('ood',) | None"""
     if drv is None:
         return [None] * len(cases)
     out = []
     for i in range(0, len(cases), 250):
-        rs = drv.ask({'p': 'C04', 'fuel': FUEL,
-                      'cases': [{'doc': enc_doc(doc), 'e': wire(ast)} for ast, doc in cases[i:i + 250]]})['res']
+        rs = drv.ask({'p': 'C04', 'fuel': FUEL, 'cases': [model_case(*c) for c in cases[i:i + 250]]})['res']
         out += [dec_model(m) for m in rs]
     return out
 
@@ -407,20 +495,25 @@ def translated_def_names(ast):
     return out
 
 
-def known_tag(ast, doc, real):
+def known_tag(ast, doc, real, env=None):
     """the known finding `def-name-translated`: the program def-ines a function under a name the registration rewrites
     AND the real result is exactly what the documented meaning gives once that one rewriting is put into it"""
     names = translated_def_names(ast)
-    if names and same(real, evalref.run(to_ref(doc), ast, def_as_implemented=True)):
+    if names and same(real, evalref.run(to_ref(doc), ast, def_as_implemented=True, env=ref_env(env))):
         return KNOWN_DEF
     return None
 
 
-def evaluate_case(ast, doc, model):
+def show_env(env):
+    return '%s; host context chain from the root upwards %s, `$` bound above %d of them' % (
+        env['entry'], json.dumps([{n: evalgen.to_host(v) for n, v in layer} for layer in env['layers']], sort_keys=True), env['at'])
+
+
+def evaluate_case(ast, doc, model, env=None):
     """-> (failure or None, info); failure = (kind, what, tag); tag = key of a known finding that explains it, or None"""
     text = evalgen.render(ast)
-    real = run_real(text, doc)
-    ref = run_ref(doc, ast)
+    real = run_real(text, doc, env=env)
+    ref = run_ref(doc, ast, env)
     a_ref, a_mod = agree(real, ref), agree(real, model)
     info = dict(text=text, real=real, ref=ref, model=model, mode=reuse_mode(text) if isinstance(doc, dict) else 'single')
     if real[0] == 'err' and real[1] in ('RecursionError', 'MemoryError'):
@@ -428,8 +521,10 @@ def evaluate_case(ast, doc, model):
     where = '%s on %s' % (text, json.dumps(evalgen.to_host(doc), sort_keys=True))
     if info['mode'] != 'single':
         where += ' [history: %s; the LAST result is compared]' % info['mode']
+    if env is not None:
+        where += ' [how the data enters: %s]' % show_env(env)
     if a_ref is False and a_mod is not True:
-        tag = known_tag(ast, doc, real)
+        tag = known_tag(ast, doc, real, env)
         extra = ''
         if tag:
             extra = (' || def() registers the name %r rewritten by the naming convention (%r); called as written it is '
@@ -478,9 +573,23 @@ PROBES = [
     ('unknown variable not null', "[$nope, $nope = null]", [None, True]),
     ('member access not mapped', "[{a => 1}, {a => 2}].a", [1, 2]),
     ('member access not mapped', "[{a => 1}, {a => 2}].select($.a)", [1, 2]),
+    ('member access not mapped', "[{a => 1}, [{a => 2}]].a", [1, [2]]),
+    ('member access not mapped', "[[{a => 1}], {a => 2}, [[{a => 3}], {a => 4}]].a", [[1], 2, [[3], 4]]),
+    ('member access not mapped', "[[{a => 1}], {a => 2}].select($.a)", [[1], 2]),
+    ('member access not mapped', "[1, 2].select([{a => $}, [{a => $ + 1}]]).a", [[1, [2]], [2, [3]]]),
     ('dynamic instead of lexical closure', "[1, 2, 3].select(let(k => $) -> def(f, $k * 10) -> f())", [10, 20, 30]),
     ('dynamic instead of lexical closure', "[[1, 2], [3]].select(def(n, $.len()) -> $.select($ * n()))", [[2, 4], [3]]),
     ('wrong $', "[1, 2].select(def(f, $) -> [f(7), f()])", [[7, 1], [7, 2]]),
+    # a lambda passed BY KEYWORD is a lambda: `$` is the element it is applied to
+    ('wrong $', "[[a, 1], [b, 2]].toDict(keySelector => $[0], valueSelector => $[1])", {'a': 1, 'b': 2}),
+    ('wrong $', "[[a, 1], [b, 2]].toDict(valueSelector => $[1], keySelector => $[0])", {'a': 1, 'b': 2}),
+    ('wrong $', "[[a, 1], [b, 2]].toDict($[0], valueSelector => $[1] + 1)", {'a': 2, 'b': 3}),
+    ('wrong $', "[[1, 2], [3]].select($.toDict(keySelector => $, valueSelector => $ * 10))", [{1: 10, 2: 20}, {3: 30}]),
+    ('wrong $', "[3, 4].select(selector => [$, $1])", [[3, 3], [4, 4]]),
+    ('wrong $', "let(k => 5) -> [1, 7].where(predicate => $ > $k)", [7]),
+    ('wrong $', "[3, 4].aggregate(selector => $1 * 10 + $2, seed => 0)", 34),
+    ('wrong $', "[1, 2].toDict(key_selector => $)", ('err', 'NoMatchingMethodException')),
+    ('wrong $', "[1, 2].select($, selector => $)", ('err', 'NoMatchingMethodException')),
 ]
 
 
@@ -517,23 +626,75 @@ def scoping_facts():
         got = run_real(text, {})
         if not same(got, expect(expected)):
             bad.append('%s: %s gives %s, expected %s' % (fact, text, show(got), show(expect(expected))))
+    for fact, text, doc, env, expected in host_probes():
+        got = run_real(text, doc, env=env)
+        if not same(got, expect(expected)):
+            bad.append('%s: %s [%s] gives %s, expected %s' % (fact, text, show_env(env), show(got), show(expect(expected))))
     return bad
+
+
+# "named variables resolve through the enclosing scopes" - the outermost scopes are the contexts of the HOST: the same
+# probe under every way the document / the host's variables can enter (harness/evalgen.py: ENTRIES)
+HOST_PROBE_TEXTS = [
+    ('host variable not seen', "[$env, $.k, $]", lambda d: ['prod', d['k'], d]),
+    ('host variable not seen from a lambda', "[5, 6, 7].where($ > $limit + 3)", lambda d: [6, 7]),
+    ('host variable not seen from a lambda', "$.xs.select([$, $env, $limit])", lambda d: [[x, 'prod', 2] for x in d['xs']]),
+    ('host variable not seen from a let chain', "let(limit => 10) -> let(y => $limit) -> [$limit, $y, $env, $.k]",
+     lambda d: [10, 10, 'prod', d['k']]),
+    ('host variable not seen from a def body', "def(f, [$env, $limit, $1]) -> let(env => 0) -> [f(1), $env]",
+     lambda d: [['prod', 2, 1], 0]),
+    ('host variable not seen from a def body', "def(f, $.xs.select($ + $limit)) -> f($)", lambda d: [x + 2 for x in d['xs']]),
+    ('shadowing between host contexts', "[$env, $region, $nope]", lambda d: ['prod', 'upper', None]),
+    ('member access not mapped', "$.rows.a", lambda d: [1, [2, [3]], 4]),
+]
+HOST_PROBE_DOC = {'k': 'v', 'xs': (1, 2), 'rows': ({'a': 1}, ({'a': 2}, ({'a': 3},)), {'a': 4})}
+HOST_PROBE_LAYERS = [
+    [[['env', 'prod'], ['limit', 2], ['region', 'lower']], [['region', 'upper']]],
+    [[], [['env', 'prod'], ['region', 'lower']], [['limit', 2], ['region', 'upper']]],
+    [[['env', 'stale'], ['region', 'lower']], [['env', 'prod']], [['limit', 2], ['region', 'upper']], []],
+]
+
+
+def host_probes():
+    out = []
+    for li, layers in enumerate(HOST_PROBE_LAYERS):
+        for entry in sorted(set(evalgen.ENTRIES)):
+            ats = [0] if entry.startswith('create_context') else \
+                list(range(1, len(layers) + 1)) if entry == 'host-binds-$' else [len(layers)]
+            for at in ats:
+                env = {'layers': layers, 'entry': entry, 'at': at}
+                for fact, text, exp in HOST_PROBE_TEXTS:
+                    out.append((fact, text, HOST_PROBE_DOC, env, evalgen.to_host(exp(evalgen.to_host(HOST_PROBE_DOC)))))
+    return out
 
 
 # ------------------------------------------------------------------ shrinking
 
-def fails(ast, doc, drv, kind, tag=None, mode=None):
+def fails(ast, doc, drv, kind, tag=None, mode=None, env=None):
     """the failure of this (smaller) case if it is of the same kind, explained by the same known finding (or by none)
     and found under the same evaluation history"""
     try:
         text = evalgen.render(ast)
         if mode is not None and not (isinstance(doc, dict) and reuse_mode(text).startswith(mode)):
             return None
-        m = ask_model(drv, [(ast, doc)])[0]
-        f, _ = evaluate_case(ast, doc, m)
+        m = ask_model(drv, [(ast, doc, env)])[0]
+        f, _ = evaluate_case(ast, doc, m, env)
     except Exception:
         return None
     return f if f and f[0] == kind and f[2] == tag else None
+
+
+def shrink_env_candidates(env):
+    """fewer variables, fewer contexts, the plain entry"""
+    out = [None]
+    layers = env['layers']
+    for i, layer in enumerate(layers):
+        for j in range(len(layer)):
+            out.append(dict(env, layers=layers[:i] + [layer[:j] + layer[j + 1:]] + layers[i + 1:]))
+    for i in range(1, len(layers)):
+        if not layers[i] and env['at'] != i + 1:
+            out.append(dict(env, layers=layers[:i] + layers[i + 1:], at=env['at'] - (1 if env['at'] > i else 0)))
+    return out
 
 
 def shrink_doc_candidates(doc):
@@ -552,9 +713,12 @@ def shrink_doc_candidates(doc):
     return out
 
 
-def shrink(ast, doc, drv, kind, tag=None, mode=None, budget=400, doc_budget=120):
+def shrink(ast, doc, drv, kind, tag=None, mode=None, budget=400, doc_budget=120, env=None):
     changed = True
-    if isinstance(doc, dict) and doc and fails(ast, {}, drv, kind, tag, mode):
+    env_budget = 40
+    if env is not None and fails(ast, doc, drv, kind, tag, mode, None):
+        env = None                          # how the data enters plays no role
+    if isinstance(doc, dict) and doc and fails(ast, {}, drv, kind, tag, mode, env):
         doc = {}                            # the document plays no role
     while changed and (budget > 0 or doc_budget > 0):
         changed = False
@@ -564,7 +728,7 @@ def shrink(ast, doc, drv, kind, tag=None, mode=None, budget=400, doc_budget=120)
             budget -= 1
             if budget <= 0:
                 break
-            if fails(cand, doc, drv, kind, tag, mode):
+            if fails(cand, doc, drv, kind, tag, mode, env):
                 ast, changed = cand, True
                 break
         if changed:
@@ -573,10 +737,19 @@ def shrink(ast, doc, drv, kind, tag=None, mode=None, budget=400, doc_budget=120)
             doc_budget -= 1                 # (its own budget: a long program must not leave the document unshrunk)
             if doc_budget <= 0:
                 break
-            if fails(ast, cand, drv, kind, tag, mode):
+            if fails(ast, cand, drv, kind, tag, mode, env):
                 doc, changed = cand, True
                 break
-    return ast, doc
+        if changed or env is None:
+            continue
+        for cand in shrink_env_candidates(env)[1:]:
+            env_budget -= 1
+            if env_budget <= 0:
+                break
+            if fails(ast, doc, drv, kind, tag, mode, cand):
+                env, changed = cand, True
+                break
+    return ast, doc, env
 
 
 def failure_key(ast):
@@ -584,37 +757,40 @@ def failure_key(ast):
     return '+'.join(names)[:80]
 
 
-def replay_of(ast, doc, facts=None):
+def replay_of(ast, doc, facts=None, env=None):
     r = {'ast': wire(ast), 'doc': enc_doc(doc), 'text': evalgen.render(ast)}
+    if env is not None:
+        r['host'] = enc_env(env)
+        r['how_the_data_enters'] = show_env(env)
     if facts is not None:
         r['scoping_facts_broken'] = facts
     return r
 
 
-def report(ast, doc, drv, f):
+def report(ast, doc, drv, f, env=None):
     """shrink, re-evaluate, describe"""
     # a failure that needs an evaluation history (the text decides which) is shrunk among texts with the same history
     mode = reuse_mode(evalgen.render(ast))
     keep = None
-    if mode != 'single' and not run_single(ast, doc, drv, f):
+    if mode != 'single' and not run_single(ast, doc, drv, f, env):
         keep = mode.split('/')[0].replace('-twice', '')          # the failure needs this kind of history
-    sast, sdoc = shrink(ast, doc, drv, f[0], f[2], keep)
-    g = fails(sast, sdoc, drv, f[0], f[2], keep) or f
+    sast, sdoc, senv = shrink(ast, doc, drv, f[0], f[2], keep, env=env)
+    g = fails(sast, sdoc, drv, f[0], f[2], keep, senv) or f
     facts = None
     what = g[1]
     if g[0] == 'oracle' and not g[2]:
         facts = scoping_facts()
         if facts:
             what += ' || scoping facts of the statement broken on this engine: ' + '; '.join(facts[:4])
-    return (g[0], g[2] or failure_key(sast), what, replay_of(sast, sdoc, facts))
+    return (g[0], g[2] or failure_key(sast), what, replay_of(sast, sdoc, facts, senv))
 
 
-def run_single(ast, doc, drv, f):
+def run_single(ast, doc, drv, f, env=None):
     """does the case fail also as ONE plain evaluation (then the history is irrelevant and shrinking may change it)"""
     global FORCE_SINGLE
     FORCE_SINGLE = True
     try:
-        g = fails(ast, doc, drv, f[0], f[2], None)
+        g = fails(ast, doc, drv, f[0], f[2], None, env)
     finally:
         FORCE_SINGLE = False
     return g is not None
@@ -631,20 +807,31 @@ def work(args):
     rng = common.make_rng(seed, 'C04/%d' % idx)
     drv = common.Driver() if use_model else None
     out = dict(cases=[], failures=[], n=0, traces=0, outcome={}, errs={}, depth={}, size={}, types={}, constructs={},
-               pairs={}, ood_ref=0, ood_model=0, parse_diff=[], sample=None, modes={}, names={}, known={}, values={})
+               pairs={}, ood_ref=0, ood_model=0, parse_diff=[], sample=None, modes={}, names={}, known={}, values={},
+               entries={}, shapes={}, kwargs={})
     try:
         batch = []
         for _ in range(n_cases):
-            ast, doc, t = evalgen.program(rng, max_depth)
-            batch.append((ast, doc, t))
-        replies = ask_model(drv, [(a, d) for a, d, _ in batch])
-        for (ast, doc, t), model in zip(batch, replies):
+            ast, doc, t, env = evalgen.program_env(rng, max_depth)
+            batch.append((ast, doc, t, env))
+        replies = ask_model(drv, [(a, d, e) for a, d, _, e in batch])
+        for (ast, doc, t, env), model in zip(batch, replies):
             text = evalgen.render(ast)
             back = parse_ast(text)
             if back != ast or repr(back) != repr(ast):         # (repr: the literal 1 is not the literal true / 1.0)
                 out['parse_diff'].append(text)
                 continue
-            f, info = evaluate_case(ast, doc, model)
+            f, info = evaluate_case(ast, doc, model, env)
+            bump(out['entries'], 'evaluate(data, context=child of the library context)' if env is None else env['entry'])
+            if env is not None:
+                depths = [i for i, layer in enumerate(env['layers']) if layer]
+                bump(out['entries'], 'host variables %s' % ('none' if not depths else '+'.join(
+                    sorted({'root (below the library)' if i == 0 else 'top' if i == len(env['layers']) - 1 else 'middle'
+                            for i in depths}))))
+            for cls in member_shapes(ast, doc, env):
+                bump(out['shapes'], cls)
+            for cls in keyword_shapes(ast):
+                bump(out['kwargs'], cls)
             real, ref = info['real'], info['ref']
             out['n'] += 1
             if model is not None:
@@ -664,7 +851,7 @@ def work(args):
             for o, i in evalgen.nesting_pairs(ast):
                 bump(out['pairs'], o + '>' + i)
             predicted = ref[0] != 'ood' or (model is not None and model[0] != 'ood')
-            out['cases'].append((common.digest([text, repr(doc)]), real[0] == 'ok' and predicted))
+            out['cases'].append((common.digest([text, repr(doc), repr(env)]), real[0] == 'ok' and predicted))
             if out['sample'] is None and real[0] == 'ok' and evalgen.size(ast) > 8:
                 out['sample'] = dict(text=text, doc=json.dumps(evalgen.to_host(doc), sort_keys=True)[:200],
                                      real=show(real)[:200])
@@ -676,18 +863,88 @@ def work(args):
             if f and f[2]:
                 bump(out['known'], f[2])
                 if not any(k == f[2] for _, k, _, _ in out['failures']):
-                    out['failures'].append(report(ast, doc, drv, f))   # one (shrunk) instance of a known finding
+                    out['failures'].append(report(ast, doc, drv, f, env))   # one (shrunk) instance of a known finding
             elif f and sum(1 for _, k, _, _ in out['failures'] if k != KNOWN_DEF) < 2:
-                out['failures'].append(report(ast, doc, drv, f))
+                out['failures'].append(report(ast, doc, drv, f, env))
     finally:
         if drv:
             drv.close()
     return out
 
 
+def kinds_of(v):
+    return {('record' if isinstance(x, dict) else 'collection' if isinstance(x, (tuple, list)) else 'scalar') for x in v}
+
+
+def member_shapes(ast, doc, env):
+    """what `.name` is applied to in this case (statistics): mixed list literals, documents / host variables holding
+    collections of mixed element kinds"""
+    out = set()
+
+    def walk(e):
+        if e[0] == 'member':
+            out.add('member access')
+            src = e[1]
+            if src[0] == 'list' and len({x[0] for x in src[1]} & {'map', 'list'}) == 2:
+                out.add('member access on a list literal of mixed element kinds')
+        for c, _ in evalgen.children(e):
+            walk(c)
+    walk(ast)
+
+    def data(v):
+        if isinstance(v, dict):
+            for x in v.values():
+                data(x)
+        elif isinstance(v, (tuple, list)):
+            if len(kinds_of(v) & {'record', 'collection'}) == 2:
+                out.add('a collection of mixed element kinds (record next to collection) in the data')
+            for x in v:
+                data(x)
+    data(doc)
+    for layer in (env or {}).get('layers', ()):
+        for _, v in layer:
+            data(v)
+    return out
+
+
+def keyword_shapes(ast):
+    """statistics: builtin methods called with keyword arguments"""
+    out = set()
+
+    def walk(e):
+        if e[0] == 'method' and e[4]:
+            names = evalgen.METHOD_PARAMS.get(e[2])
+            ok = names is not None and all(k[0] == 'kw' and k[1] in names for k, _ in e[4])
+            out.add('a builtin method called with keyword arguments')
+            out.add('... %s' % ('under the parameters\' names' if ok else 'under a name that is no parameter'))
+            if ok and any(k[1].lower() != k[1] for k, _ in e[4]):
+                out.add('... a multi-word (convention-translated) name')
+            if ok and any(v[0] not in ('lit', 'kw') for _, v in e[4]):
+                out.add('... a lambda / expression passed by keyword')
+        for c, _ in evalgen.children(e):
+            walk(c)
+    walk(ast)
+    return out
+
+
 def fixed_battery(drv, res):
     """the probe programs, three ways, every run"""
     n = 0
+    for fact, text, doc, env, expected in host_probes():
+        ast = parse_ast(text)
+        model = ask_model(drv, [(ast, doc, env)])[0]
+        f, info = evaluate_case(ast, doc, model, env)
+        n += 1
+        res.case(common.digest([text, 'host-probe', repr(env)]), True)
+        if drv is not None:
+            res.traces += 1
+        if not same(info['ref'], expect(expected)):
+            res.fail('mismatch', 'probe', 'probe %s [%s]: the transcription gives %s, the probe table expects %s' % (
+                text, show_env(env), show(info['ref']), show(expect(expected))), replay_of(ast, doc, None, env))
+        if f:
+            what = f[1] + (' || scoping fact: ' + fact if f[0] == 'oracle' else '')
+            res.fail(f[0], f[2] or failure_key(ast), what, replay_of(ast, doc, None, env))
+            break
     for fact, text, expected in PROBES + REGRESSIONS:
         ast = parse_ast(text)
         model = ask_model(drv, [(ast, {})])[0]
@@ -723,14 +980,14 @@ def run(env, res):
     if env['replay']:
         rp = json.load(open(env['replay']))
         case = rp['case']
-        ast, doc = unwire(case['ast']), dec_doc(case['doc'])
-        model = ask_model(drv, [(ast, doc)])[0]
-        f, info = evaluate_case(ast, doc, model)
-        res.case(common.digest([info['text'], repr(doc)]), True, sample=info['text'])
+        ast, doc, env = unwire(case['ast']), dec_doc(case['doc']), dec_env(case.get('host'))
+        model = ask_model(drv, [(ast, doc, env)])[0]
+        f, info = evaluate_case(ast, doc, model, env)
+        res.case(common.digest([info['text'], repr(doc), repr(env)]), True, sample=info['text'])
         res.traces += 1 if use_model else 0
         if f:
             facts = scoping_facts() if f[0] == 'oracle' else None
-            res.fail(f[0], f[2] or failure_key(ast), f[1], replay_of(ast, doc, facts))
+            res.fail(f[0], f[2] or failure_key(ast), f[1], replay_of(ast, doc, facts, env))
         return res
     t0 = time.time()
     n_probe = fixed_battery(drv, res)
@@ -742,7 +999,8 @@ def run(env, res):
     with multiprocessing.Pool(nproc) as pool:
         results = pool.map(work, jobs, chunksize=1)
     hist = dict(outcome={}, real_error_classes={}, ast_depth={}, ast_size={}, result_types={}, constructs={},
-                evaluation_history={}, names_by_class={}, known_finding_hits={}, value_situations={})
+                evaluation_history={}, names_by_class={}, known_finding_hits={}, value_situations={},
+                how_the_data_enters={}, member_access_shapes={}, keyword_arguments={})
     pairs, ood_ref, ood_model, n, parse_diff = {}, 0, 0, 0, []
     for out in results:
         for sig, nt in out['cases']:
@@ -760,7 +1018,9 @@ def run(env, res):
                          (out['depth'], hist['ast_depth']), (out['size'], hist['ast_size']),
                          (out['types'], hist['result_types']), (out['constructs'], hist['constructs']), (out['pairs'], pairs),
                          (out['modes'], hist['evaluation_history']), (out['names'], hist['names_by_class']),
-                         (out['known'], hist['known_finding_hits']), (out['values'], hist['value_situations'])):
+                         (out['known'], hist['known_finding_hits']), (out['values'], hist['value_situations']),
+                         (out['entries'], hist['how_the_data_enters']), (out['shapes'], hist['member_access_shapes']),
+                         (out['kwargs'], hist['keyword_arguments'])):
             for k, v in src.items():
                 dst[str(k)] = dst.get(str(k), 0) + v
     if parse_diff:
@@ -804,7 +1064,12 @@ LEVEL_TEXT = ('Lean 4 theorems, for ALL expressions, contexts, documents and fue
 LEVEL_NOTE = ('trusted: Lean kernel; the hand-written interpreter Yaql/Model/Eval.lean (reusing the value semantics of Model/Seq.lean '
               'and the name normalisation of Model/Context.lean); harness/evalref.py; the renderer (every text is parsed back by '
               'the engine under test and compared with the AST).  "frame" holds by construction of the representation (contexts '
-              'are values), so what is proved is its observable content.  The builtins inside the evaluator are dispatched by '
+              'are values), so what is proved is its observable content.  Round 5: `.name` maps over collections of mixed element '
+              'kinds (member_maps for arbitrary elements, member_elementwise); a variable bound at any depth of the host\'s '
+              'context chain is seen from every scope and where `$` is bound is irrelevant (host_var_visible, '
+              'doc_position_irrelevant); keyword arguments of builtin methods are the positional call that says the same '
+              '(toDict_by_keyword, lambda_by_keyword, select_by_keyword; keyword names = the live registry\'s: '
+              'C04Gen.kwParams_live).  The builtins inside the evaluator are dispatched by '
               'name / receiver kind; that this agrees with overload resolution on the real registry is checked by correspondence '
               'only.  Out of domain (skipped, counted): one-shot iterators read back from variables, raising generators / '
               'orderings / contexts stored inside data, operators on lazy sequences.')
